@@ -600,10 +600,10 @@ func (c *controller) SetNode(l log.Logger, node *v1.Node) controllers.SyncState 
 }
 
 func isNodeAvailableChanged(oldNodes map[string]*v1.Node, newNode *v1.Node) bool {
-	oldNode, exists := oldNodes[newNode.Name]
-	if !exists {
-		return false
-	}
+	// A node seen for the first time is compared with "no node": until now
+	// it was treated as available (and not excluded), so its first
+	// sighting is a change if it is not.
+	oldNode := oldNodes[newNode.Name]
 
 	if k8snodes.IsNetworkUnavailable(oldNode) != k8snodes.IsNetworkUnavailable(newNode) {
 		return true
